@@ -665,7 +665,7 @@ def run(ctx):
 def _run(ctx):
     from props.c08 import pmap
     rng = ctx.subrng('scenarios')
-    n = ctx.size(7, 300)
+    n = ctx.size(6, 300)      # + 3 witnesses, 3 layouts, 2 sub-second, corpus, 2 wallclock workers
     scs = []
     _check_fs_resolution()
     for i in range(n):
